@@ -124,7 +124,9 @@ func startWorker() *worker {
 	c := exec.Command(workerPath())
 	c.Env = append(os.Environ(), "GOTRACEBACK=all")
 	if spec.Race {
-		c.Env = append(c.Env, "GORACE=halt_on_error=0 history_size=3")
+		logPrefix := filepath.Join(buildDir, "race", fmt.Sprintf("log-%d", os.Getpid()))
+		os.MkdirAll(filepath.Dir(logPrefix), 0o755)
+		c.Env = append(c.Env, "GORACE=halt_on_error=0 history_size=3 log_path="+logPrefix, "VERIF_RACE_LOG="+logPrefix)
 	}
 	in, err := c.StdinPipe()
 	if err != nil {
@@ -764,6 +766,10 @@ func main() {
 		for _, f := range old {
 			os.Remove(f)
 		}
+	}
+	if spec.Race {
+		os.RemoveAll(filepath.Join(buildDir, "race"))
+		defer os.RemoveAll(filepath.Join(buildDir, "race"))
 	}
 	agg := &aggregate{sigs: map[uint64]bool{}, ctr: map[string]int64{}}
 	runBatch(total, nworkers, t0.Add(budget), agg)
